@@ -51,13 +51,23 @@ Fixpoint double_sq (s : bytes) : bytes :=
 Definition pg_quote (s : bytes) : bytes :=
   if is_quoted s [39%N] then s else [39%N] ++ double_sq s ++ [39%N].
 
-(** sqlx.SingleQuote.  The branch for a double-quoted input goes through strconv.Unquote, which is
-    outside the model: [None] stands for that branch (the harness never takes it in the tie; the
-    theorems are about the other two branches). *)
+(** sqlx.SingleQuote:  an input already quoted with ' is returned as is; an input quoted with the double quote (a
+    default that InspectSchema returns from a legacy SQLite schema / a SQL schema file:
+    DEFAULT its in double quotes) goes through strconv.Unquote and is then quoted like a raw input; everything
+    else is wrapped in ' with the apostrophes doubled.  strconv.Unquote (Go string-literal syntax)
+    is the Section parameter [unq] ([None] = its error, which SingleQuote returns); the harness
+    passes the real result for every input, the theorems hold for every function. *)
+Section SingleQuote.
+Variable unq : bytes -> option bytes.
 Definition single_quote (s : bytes) : option bytes :=
   if is_quoted s [39%N] then Some s
-  else if is_quoted s [34%N] then None
+  else if is_quoted s [34%N] then
+    match unq s with
+    | Some v => Some ([39%N] ++ double_sq v ++ [39%N])
+    | None => None
+    end
   else Some ([39%N] ++ double_sq s ++ [39%N]).
+End SingleQuote.
 
 (** strconv.Quote *)
 Definition hexdigit (n : N) : N := if (n <? 10)%N then (48 + n)%N else (87 + n)%N.
@@ -107,9 +117,17 @@ Definition format_value (v : bytes) : bytes :=
   if is_quoted v [34%N; 39%N] then v else [39%N] ++ v ++ [39%N].
 Definition format_values (vs : list bytes) : bytes := join_comma (map format_value vs).
 
-(** sqlx.Builder.Ident: opening quote, the name as is, closing quote (the trailing space that the
-    builder appends is not part of the token). *)
+(** sqlx.Builder.Ident (fix C16-ident-double-quote-char): opening quote, the name with every
+    closing-quote byte written twice, closing quote (the trailing space that the builder appends
+    is not part of the token).  [raw_ident] is the spelling before the fix (the name as is). *)
+Fixpoint double_q (q : N) (s : bytes) : bytes :=
+  match s with
+  | [] => []
+  | c :: t => if N.eqb c q then q :: q :: double_q q t else c :: double_q q t
+  end.
 Definition ident (qo qc : N) (s : bytes) : bytes :=
+  match s with [] => [] | _ => [qo] ++ double_q qc s ++ [qc] end.
+Definition raw_ident (qo qc : N) (s : bytes) : bytes :=
   match s with [] => [] | _ => [qo] ++ s ++ [qc] end.
 
 (** a closed literal token for a scanner whose backslash handling is [esc]: the token is a
